@@ -37,6 +37,8 @@ def _calls(rng, m, k):
             c["a"], c["b"] = a, b
         if name == "dominators_of":
             c["a"] = rng.randrange(m)
+        # the documented call forms of the accessor: dm.dominance.name(...), dm.dominance("name", ...), dm.dominance(...) (default kind)
+        c["form"] = rng.choice(["method", "method", "call", "call-default"])
         out.append(c)
     return out
 
@@ -46,13 +48,18 @@ def gen(ctx):
     cases = []
     for _ in range(ctx.n(220, 3000)):
         m, n = rng.randint(2, 9), rng.randint(1, 6)
-        alpha = rng.choice([[0, 1], [0, 1, 2], [1, 2, 3, 4], None, "near", "bigint", "uint"])
+        alpha = rng.choice([[0, 1], [0, 1, 2], [1, 2, 3, 4], None, "near", "bigint", "uint", "intmin"])
         bigint = alpha == "bigint"
         udtype = None
         if alpha == "uint":
             # matrix stored with an unsigned integer dtype: differences must not be taken in that dtype
             udtype = rng.choice(["uint8", "uint16", "uint32", "uint64"])
             mat = [[rng.randint(0, 5) for _ in range(n)] for _ in range(m)]
+        elif alpha == "intmin":
+            # signed integer storage holding the most negative value of its type (and its neighbours): negating it wraps around
+            udtype = rng.choice(["int8", "int16", "int32", "int64"])
+            lo = -(2 ** (int(udtype[3:]) - 1))
+            mat = [[float(rng.choice([lo, lo, lo + 1, lo + 2, -1, 0, 1, 5])) for _ in range(n)] for _ in range(m)]
         elif bigint:
             # integer-typed matrix with values that differ only beyond the 53-bit mantissa of a double
             mat = [[2 ** 53 + rng.randint(0, 3) for _ in range(n)] for _ in range(m)]
@@ -111,31 +118,47 @@ def observe(case):
         idx = {G.lab(a): i for i, a in enumerate(alts)}
         acc = dm.dominance
         outs = []
+        def call(name, *a, **kw):
+            """the accessor's three documented call forms: acc.name(...), acc("name", ...), acc(...) for the default kind"""
+            form = c.get("form", "method")
+            if form in ("call", "call-default") and a:
+                # the callable form takes keyword arguments only: name the positional ones after the method's own parameters
+                import inspect
+
+                params = [p for p in inspect.signature(getattr(acc, name)).parameters]
+                kw = dict(zip(params, a), **kw)
+                a = ()
+            if form == "call":
+                return acc(name, **kw)
+            if form == "call-default" and name == "dominance":
+                return acc(**kw)
+            return getattr(acc, name)(*a, **kw)
+
         for c in case["calls"]:
             try:
                 name = c["m"]
                 if name in ("bt", "eq"):
-                    df = getattr(acc, name)()
+                    df = call(name)
                     outs.append({"v": df.to_numpy().tolist(), "rows": [G.lab(x) for x in df.index], "cols": [G.lab(x) for x in df.columns]})
                     _scribble(df)
                 elif name == "dominance":
-                    df = acc.dominance(strict=c["strict"])
+                    df = call("dominance", strict=c["strict"])
                     outs.append({"v": df.to_numpy().astype(bool).tolist(), "rows": [G.lab(x) for x in df.index], "cols": [G.lab(x) for x in df.columns]})
                     _scribble(df)
                 elif name == "dominated":
-                    s = acc.dominated(strict=c["strict"])
+                    s = call("dominated", strict=c["strict"])
                     outs.append({"v": [bool(x) for x in s.to_numpy()], "rows": [G.lab(x) for x in s.index]})
                     _scribble(s)
                 elif name == "compare":
-                    df = acc.compare(alts[c["a"]], alts[c["b"]])
+                    df = call("compare", alts[c["a"]], alts[c["b"]])
                     body = df.iloc[:, :-1].to_numpy().astype(bool).tolist()
                     outs.append({"row0": body[0], "row1": body[1], "eq": body[2], "perf": [int(x) for x in df["Performance"].tolist()]})
                 elif name == "dominators_of":
-                    d = acc.dominators_of(alts[c["a"]], strict=c["strict"])
+                    d = call("dominators_of", alts[c["a"]], strict=c["strict"])
                     outs.append({"v": [idx[G.lab(x)] for x in d]})
                     _scribble(d)
                 elif name == "has_loops":
-                    outs.append({"v": bool(acc.has_loops(strict=c["strict"]))})
+                    outs.append({"v": bool(call("has_loops", strict=c["strict"]))})
             except Exception as e:
                 outs.append({"err": G.err_name(e), "msg": str(e)[:200]})
         return {"outs": outs}
